@@ -151,3 +151,10 @@ pub fn spec_encode_arcs(arcs: &[u32; MAX_ARCS], n: usize) -> ([u8; 24], usize) {
     }
     (out, k)
 }
+
+/// Stub for f64::powi (S2): the numeric value of a binary REAL is outside every claim.  A CONCRETE result is
+/// returned on purpose: an arbitrary float would make the following multiplication a symbolic floating-point
+/// product, which CBMC cannot bit-blast within the budget (measured: out of memory).
+pub fn stub_powi(_x: f64, _n: i32) -> f64 {
+    2.0
+}
